@@ -25,6 +25,17 @@ HOOKS = ["before_all", "after_all", "before_feature", "after_feature", "before_r
 # ------------------------------------------------------------------ rendering
 NOISE = {"F": "", "S": "", "step": ""}       # set per run from cfg["noise"]: text appended to names after " ~ "
 SEP = " ~ "
+EX_INDEX = {}                                # examples id -> its 1-based position among the outline's blocks that have a table
+
+
+def canon(name):
+    """With cfg["noise"]["tableless"] an outline also has an 'Examples:' block without a table. behave numbers rows by the
+    position of their block among all blocks, the abstract program by its position among the blocks it knows: map back."""
+    if NOISE.get("tableless") is None:
+        return name
+    import re
+    return re.sub(r"@(\d+)\.(\d+) E(\d+)", lambda m: "@%d.%s E%s" % (EX_INDEX.get(int(m.group(3)), int(m.group(1))), m.group(2), m.group(3)),
+                  str(name))
 
 
 def noisy(kind, base):
@@ -73,7 +84,14 @@ def render_item(it, ind, out):
             out.append("%s@%s" % (ind, NOISE["phantom_tag"]))
         out.append("%sScenario Outline: %s" % (ind, noisy("S", "O%d" % it["id"])))
         render_steps(it["steps"], ind + "  ", out)
-        for ex in it["examples"]:
+        exs = list(it["examples"])
+        if NOISE.get("tableless") is not None:
+            # an Examples block that has the keyword but no table contributes no rows (and hides none of the other blocks' rows)
+            exs.insert((NOISE["tableless"] + it["id"]) % (len(exs) + 1), None)
+        for ex in exs:
+            if ex is None:
+                out.append("%s  Examples: none" % ind)
+                continue
             tagline(ex["tags"], ind + "  ", out)
             out.append("%s  Examples: E%d" % (ind, ex["id"]))
             out.append("%s    | x |" % ind)
@@ -159,7 +177,15 @@ def run_program(prog, extra_formatters=None, reporters=None, config_hook=None, w
     cfg = prog["cfg"]
     noise = cfg.get("noise") or {}
     NOISE.update({"F": noise.get("feature", ""), "S": noise.get("scenario", ""), "step": noise.get("step", ""),
-                  "step_mod": noise.get("step_mod"), "phantom_tag": noise.get("phantom_tag")})
+                  "step_mod": noise.get("step_mod"), "phantom_tag": noise.get("phantom_tag"),
+                  "tableless": noise.get("tableless")})
+    EX_INDEX.clear()
+    for _f in prog["features"]:
+        for _it in _f["items"]:
+            for _x in (_it["items"] if _it["kind"] == "rule" else [_it]):
+                if _x["kind"] == "outline":
+                    for _ei, _ex in enumerate(_x["examples"]):
+                        EX_INDEX[_ex["id"]] = _ei + 1
     msg_noise = noise.get("message", "")
     log, fmt = [], []
     faults = set((h, str(k)) for h, k in cfg.get("faults", []))
@@ -172,7 +198,7 @@ def run_program(prog, extra_formatters=None, reporters=None, config_hook=None, w
 
     def mk(kind):
         def impl(context, n, noise_text=None):
-            sc = str(context.scenario.name).split(SEP)[0]
+            sc = canon(str(context.scenario.name).split(SEP)[0])
             log.append(["step", kind, n, sc, "wip" in context.scenario.effective_tags])
             if noise.get("stdout"):
                 sys.stdout.write(noise["stdout"])
@@ -225,7 +251,7 @@ def run_program(prog, extra_formatters=None, reporters=None, config_hook=None, w
             return "0"
         if isinstance(arg, str):
             return str.__str__(arg)
-        name = str(arg.name).split(SEP)[0]
+        name = canon(str(arg.name).split(SEP)[0])
         if hasattr(arg, "step_type"):
             return name.split()[-1]
         return name
@@ -309,7 +335,7 @@ def run_program(prog, extra_formatters=None, reporters=None, config_hook=None, w
             ev(["background", background.name, [s.name for s in background.steps]])
 
         def scenario(self, scenario):
-            ev(["scenario", scenario.name])
+            ev(["scenario", canon(scenario.name)])
 
         def step(self, step):
             ev(["step", step.name])
@@ -381,7 +407,7 @@ def run_program(prog, extra_formatters=None, reporters=None, config_hook=None, w
         after = after_run(runner, features)
 
     def scen_res(sc):
-        return {"name": sc.name, "status": sc.status.name, "hook_failed": bool(sc.hook_failed),
+        return {"name": canon(sc.name), "status": sc.status.name, "hook_failed": bool(sc.hook_failed),
                 "steps": [s.status.name for s in sc.all_steps], "line": sc.line,
                 "should_skip": bool(sc.should_skip)}
 
@@ -397,9 +423,10 @@ def run_program(prog, extra_formatters=None, reporters=None, config_hook=None, w
         return d
 
     tree = []
-    for f in features:
-        tree.append({"kind": "feature", "name": f.name, "status": f.status.name,
-                     "hook_failed": bool(f.hook_failed), "items": [item_res(x) for x in f.run_items]})
+    with contextlib.redirect_stdout(io.StringIO()):       # (an outline with a table-less Examples block complains on every access)
+        for f in features:
+            tree.append({"kind": "feature", "name": f.name, "status": f.status.name,
+                         "hook_failed": bool(f.hook_failed), "items": [item_res(x) for x in f.run_items]})
     obs = {"failed": failed, "crashed": crashed, "log": log, "fmt": fmt, "tree": tree,
            "aborted": bool(runner.aborted), "hook_failures": runner.hook_failures,
            "undefined": len(runner.undefined_steps), "stdout": sink.getvalue()[-2000:]}
